@@ -71,7 +71,7 @@ class Parser(IdlVisitor):
         self.idl = idl
         self.position = position
         # files currently being parsed (cycle detection) and files already imported (each file is loaded once)
-        self.import_stack = import_stack + (Path(os.path.abspath(idl)),)
+        self.import_stack = import_stack + (self._file_key(idl),)
         self.imported = imported if imported is not None else set()
         self.type_decls: list[BaseType] = []
         # declarations and references of imported files: resolved and checked by their own (nested) parser
@@ -402,6 +402,17 @@ class Parser(IdlVisitor):
         function.comment = self.visit(ctx.comment()) if ctx.comment() else None
         return function
 
+    @staticmethod
+    def _file_key(path) -> Path:
+        """
+        Identity of a file in the import bookkeeping: symbolic links are resolved, so that one file reached under two
+        spellings is one import and two files are two ('link/../x' is not 'x' if 'link' points to another directory).
+        """
+        try:
+            return Path(os.path.realpath(path))
+        except (OSError, ValueError):
+            return Path(os.path.abspath(path))
+
     def visitTargets(self, ctx: IdlParser.TargetsContext) -> [str]:
         includes = []
         excludes = []
@@ -495,7 +506,7 @@ class Parser(IdlVisitor):
     def visitImportDef(self, ctx: IdlParser.ImportDefContext):
         import_path = self.visit(ctx.filepath())
         if import_path:
-            import_key = Path(os.path.abspath(import_path.path))
+            import_key = self._file_key(import_path.path)
             if import_key in self.import_stack:
                 self.errors.append(Parser.ParsingException(
                     f"Circular import detected: file {import_path.path} indirectly imports itself!",
